@@ -2,20 +2,21 @@
   OV.Model.C13Export — the decision logic of `onnxscript/backend/onnx_export.py`
   (`export2python` = `onnxscript.proto2python`), restated as total functions.  Core Lean only.
 
-  What is modelled (bugs included, see design_notes/C13.md):
+  What is modelled (the code as it is now, after the fixes e68372f, 4af3eb7, b6d60b3, 71b4284, 4e95266, 9e40403,
+  7dcad6a, efaa07e, da27432; remaining defects included, see design_notes/C13.md):
   * `_cleanup_variable_name` over ASCII (`cleanupL` on `List Char`, `cleanup` on `String`);
-  * `_make_short_name_mapper` (`shortName`: `v1, v2, …` keyed by the *cleaned* name, in order of
-    first request), `_handle_attrname_conflict` (`newRenamer`, `findCand`), the `_name_remappings`
-    scope stack (`lookupRemap`), `_rename_domain`, `_make_callee_name`;
-  * `_get_const_repr` (`constRepr`): FLOAT/INT64, rank 0 or rank 1 with < 5 elements, attribute 0 only;
-  * `_translate_node` (inline constants, control flow dispatch, graph-attribute refusal, the
-    operator-sugar table — with the dead key `"Lesser"` —, call form, `_i` for missing outputs,
-    suppression of `x = Identity(x)`), `_translate_attributes` (which kinds are refused),
-    `_translate_if`, `_translate_loop` (the three loop shapes, the `RuntimeError`, the
-    `_name_remappings[-1]` write that raises `IndexError` for a main graph), `_emit_assign`,
-    `_translate_graph_body` (initializers → `Constant`, re-translating the already translated name;
-    `skip_initializers`; sparse refusal), `_translate_function`, `_translate_graph`
-    (signature by `_cleanup_variable_name`, *not* by the renamer), `_substitute_initializers`.
+  * `_make_unique_name_mapper` (`uniqStep`/`uniqueName`: cleaned name, `_1`, `_2`, … on collision, one Python name
+    per ONNX name), `_make_short_name_mapper` (`shortName`: `v1, v2, …` keyed by the ONNX name, in order of first
+    request), `_handle_attrname_conflict` (`newRenamer`, `findCand`), the `_name_remappings` scope stack
+    (`lookupRemap`), `_rename_domain`, `_make_callee_name`;
+  * `_get_const_repr` (`constRepr`): no dimension 0, FLOAT/INT64, rank 0 or rank 1 with < 5 elements, all finite;
+  * `_translate_node` (inline constants, control flow dispatch, graph-attribute refusal, the operator-sugar table —
+    with the dead key `"Lesser"` —, parentheses around a `-…` base of `**`, call form, `_i` for missing outputs,
+    suppression of `x = Identity(x)`), `_translate_attributes`, `_translate_if`, `_translate_loop`, `_emit_assign`,
+    `_translate_graph_body` (initializers → `Constant` with the ONNX name, translated once; `skip_initializers`;
+    sparse refusal), `_translate_function` (sorted used names, attributes registered before the inputs),
+    `_translate_graph` (own remapping scope, body first, signature through the renamer, dedent when nothing was
+    skipped), `_substitute_initializers` (`generate_rand` dtype table).
   The result is a canonical *program* (`List String`, one line per emitted statement, with its
   nesting depth) that the harness compares with the `ast` of the text the real exporter returns.
   Rendering of values (float `repr`, tensors) is not modelled: literals are opaque tokens supplied
@@ -107,6 +108,9 @@ structure St where
   constants : List (String × String) := []
   /-- keys of `skipped_initializers` with their dtype, in insertion order -/
   skipped : List (String × Nat) := []
+  /-- `python_names` of `_make_unique_name_mapper` (ONNX name ↦ Python name, insertion order);
+      its `used` set is the list of second components -/
+  uniq : List (String × String) := []
   deriving Repr
 
 /-! ## Renaming -/
@@ -116,10 +120,47 @@ structure St where
 def shortStep (keys : List String) (k : String) : Nat × List String :=
   if k ∈ keys then (keys.idxOf k, keys) else (keys.length, keys ++ [k])
 
-/-- `_make_short_name_mapper().renamer`: `v{index+1}`, keyed by the *cleaned* name. -/
+/-- `_make_short_name_mapper().renamer`: `v{index+1}`, keyed by the ONNX name itself (fix da27432; it was
+    keyed by the cleaned name before). -/
 def shortName (st : St) (name : String) : String × St :=
-  let r := shortStep st.shortKeys (cleanup name)
+  let r := shortStep st.shortKeys name
   ("v" ++ Nat.repr (r.1 + 1), { st with shortKeys := r.2 })
+
+/-- the `k`-th candidate of `_make_unique_name_mapper`: the cleaned name, then `<cleaned>_1`, `<cleaned>_2`, … -/
+def uniqCand (cleaned : String) (k : Nat) : String :=
+  if k = 0 then cleaned else cleaned ++ "_" ++ Nat.repr k
+
+/-- `while candidate in used: counter += 1; candidate = f"{cleaned}_{counter}"` (fuel `used.length + 1` suffices) -/
+def findFree (cleaned : String) (used : List String) : Nat → Nat → String
+  | 0, k => uniqCand cleaned k
+  | fuel + 1, k => if uniqCand cleaned k ∈ used then findFree cleaned used fuel (k + 1) else uniqCand cleaned k
+
+/-- one request to `_make_unique_name_mapper().renamer` on the table `u` -/
+def uniqStep (u : List (String × String)) (name : String) : String × List (String × String) :=
+  match u.lookup name with
+  | some r => (r, u)
+  | none =>
+    let r := findFree (cleanup name) (u.map (·.2)) (u.length + 1) 0
+    (r, u ++ [(name, r)])
+
+/-- a request to the unique-name mapper as `_translate_onnx_var` issues it: the empty name (absent input)
+    does not reach the mapper -/
+def uniqReq (u : List (String × String)) (v : String) : List (String × String) :=
+  if v = "" then u else (uniqStep u v).2
+
+/-- the table after a sequence of requests -/
+def uniqRun (u : List (String × String)) : List String → List (String × String)
+  | [] => u
+  | v :: vs => uniqRun (uniqReq u v) vs
+
+/-- the printed name of `v` according to table `T` (`""` ↦ `None`) -/
+def pyT (T : List (String × String)) (v : String) : String :=
+  if v = "" then "None" else (T.lookup v).getD ""
+
+/-- `_make_unique_name_mapper().renamer` (fix da27432): clean-up, made injective by a numeric suffix -/
+def uniqueName (st : St) (name : String) : String × St :=
+  let r := uniqStep st.uniq name
+  (r.1, { st with uniq := r.2 })
 
 /-- a sequence of requests -/
 def shortRun : List String → List String → List Nat × List String
@@ -137,7 +178,7 @@ def findCand (base : String) (used : List String) : Nat → Nat → String → S
 
 /-- `rename_function` (short mapper or clean-up) wrapped by `_handle_attrname_conflict`. -/
 def newRenamer (o : Opts) (st : St) (name : String) : String × St :=
-  let (nn, st) := if o.rename then shortName st name else (cleanup name, st)
+  let (nn, st) := if o.rename then shortName st name else uniqueName st name
   match st.attrRen.lookup nn with
   | none => (nn, st)
   | some (some alt) => (alt, st)
@@ -185,14 +226,26 @@ def renameDomain (d : String) : String :=
 /-- `_make_opset_name` -/
 def opsetName (d : String) (version : Nat) : String := renameDomain d ++ Nat.repr version
 
+/-- `_default_opset_arg` (fix 24e6aa0): with `use_operators` the decorator names the standard-domain opset the
+    proto imports (`""` first, then `"ai.onnx"`), so that a body made of Python operators only still converts -/
+def defaultOpsetArg (o : Opts) (opsets : List (String × Nat)) : String :=
+  if o.useOps then
+    match opsets.lookup "" with
+    | some v => "default_opset=" ++ opsetName "" v
+    | none => match opsets.lookup "ai.onnx" with
+      | some v => "default_opset=" ++ opsetName "ai.onnx" v
+      | none => ""
+  else ""
+
 /-! ## Protos -/
 
 mutual
 inductive Attr where
   /-- FLOAT / INT / STRING / FLOATS / INTS / STRINGS: rendered by `repr` -/
   | plain
-  /-- `HasField("t")`: dtype, dims, literal token of the value (meaningful when inlinable) -/
-  | tensor (dtype : Nat) (dims : List Nat) (lit : String)
+  /-- `HasField("t")`: dtype, dims, whether all elements are finite, literal token of the value
+      (meaningful when inlinable; a token starting with `-` is a text starting with `-`) -/
+  | tensor (dtype : Nat) (dims : List Nat) (finite : Bool) (lit : String)
   /-- `ref_attr_name` set -/
   | ref (r : String)
   /-- non-empty `g` -/
@@ -203,8 +256,8 @@ inductive Attr where
 inductive Node where
   | mk (op domain name : String) (ins outs : List String) (attrs : List (String × Attr))
 inductive Graph where
-  /-- inits: (name, element count, dtype, dims, literal token) -/
-  | mk (inputs outputs : List String) (inits : List (String × Nat × Nat × List Nat × String))
+  /-- inits: (name, element count, dtype, dims, all-finite, literal token) -/
+  | mk (inputs outputs : List String) (inits : List (String × Nat × Nat × List Nat × Bool × String))
        (nSparse : Nat) (nodes : List Node)
 end
 
@@ -223,7 +276,7 @@ end Node
 namespace Graph
 def inputs : Graph → List String | .mk i _ _ _ _ => i
 def outputs : Graph → List String | .mk _ o _ _ _ => o
-def inits : Graph → List (String × Nat × Nat × List Nat × String) | .mk _ _ i _ _ => i
+def inits : Graph → List (String × Nat × Nat × List Nat × Bool × String) | .mk _ _ i _ _ => i
 def nSparse : Graph → Nat | .mk _ _ _ s _ => s
 def nodes : Graph → List Node | .mk _ _ _ _ n => n
 def empty : Graph := .mk [] [] [] 0 []
@@ -277,14 +330,15 @@ def condIsUsed (d : Nat) (g : Graph) : Bool :=
 
 /-! ## Inline constants, operator table, attributes -/
 
-/-- `_get_const_repr` on `attribute[0]`: FLOAT (1) / INT64 (7), rank 0, or rank 1 with
-    `dims[0] < 5`. -/
+/-- `_get_const_repr` on `attribute[0]`: no dimension 0 (fix 4e95266), FLOAT (1) / INT64 (7), rank 0 or rank 1
+    with `dims[0] < 5`, and every element finite (fix 71b4284). -/
 def constRepr : Attr → Option String
-  | .tensor dtype dims lit =>
-    if dtype == 1 || dtype == 7 then
+  | .tensor dtype dims finite lit =>
+    if dims.contains 0 then none
+    else if dtype == 1 || dtype == 7 then
       match dims with
-      | [] => some lit
-      | [n] => if n < 5 then some lit else none
+      | [] => if finite then some lit else none
+      | [n] => if n < 5 then (if finite then some lit else none) else none
       | _ => none
     else none
   | _ => none
@@ -302,7 +356,7 @@ def translateAttrs : List (String × Attr) → Except Err (List String)
     match a with
     | .ref r => (translateAttrs rest).map (fun l => (k ++ "=@" ++ r) :: l)
     | .plain => (translateAttrs rest).map (fun l => k :: l)
-    | .tensor _ _ _ => (translateAttrs rest).map (fun l => k :: l)
+    | .tensor _ _ _ _ => (translateAttrs rest).map (fun l => k :: l)
     | .graph _ => .error .attrKind
     | .unsupported => .error .attrKind
 
@@ -336,18 +390,17 @@ def nodesLoop (f : Node → St → R) : List Node → St → R
 
 /-- the initializer loop of `_translate_graph_body` -/
 def initsLoop (o : Opts) (rec : Node → St → R) :
-    List (String × Nat × Nat × List Nat × String) → St → R
+    List (String × Nat × Nat × List Nat × Bool × String) → St → R
   | [], st => .ok ([], st)
-  | (name, size, dtype, dims, lit) :: rest, st =>
+  | (name, size, dtype, dims, finite, lit) :: rest, st =>
     if o.skipInit && size > 4 then
       let (py, st) := translateVar o st name
       if (st.skipped.map (·.1)).contains py then .error .dupSkipped
       else initsLoop o rec rest { st with skipped := st.skipped ++ [(py, dtype)] }
     else
-      let (py, st) := translateVar o st name
-      -- make_node("Constant", [], [py], value=init) is then translated like any node:
-      -- its output `py` is translated a second time
-      match rec (.mk "Constant" "" "" [] [py] [("value", .tensor dtype dims lit)]) st with
+      -- make_node("Constant", [], [init.name], value=init): the output keeps its ONNX name and is
+      -- translated (once) by `_translate_node` (fix efaa07e)
+      match rec (.mk "Constant" "" "" [] [name] [("value", .tensor dtype dims finite lit)]) st with
       | .error e => .error e
       | .ok (l1, st) =>
         match initsLoop o rec rest st with
@@ -441,6 +494,13 @@ def outNames (o : Opts) (st : St) (i : Nat) : List String → List String × St
       let (rs, st) := outNames o st (i + 1) xs
       (r :: rs, st)
 
+/-- fix b6d60b3: the left operand of `**` is parenthesised when its text starts with `-` (only an inlined
+    negative constant can) -/
+def powParen (op : String) (args : List String) : List String :=
+  match args with
+  | a :: rest => if op == "Pow" && a.toList.head? == some '-' then ("(" ++ a ++ ")") :: rest else args
+  | [] => []
+
 /-- the non-control-flow tail of `_translate_node` -/
 def translatePlain (o : Opts) (opsets : List (String × Nat)) (n : Node) (indent : Nat) (st : St) : R :=
   if n.attrs.any (·.2.isGraph) then .error .graphAttr
@@ -448,7 +508,7 @@ def translatePlain (o : Opts) (opsets : List (String × Nat)) (n : Node) (indent
     | some sym =>
       let (out, st) := translateVar o st (n.outs.getD 0 "")
       let (args, st) := translateVarRefs o st n.ins
-      .ok ([line indent ("op " ++ out ++ " = " ++ (" " ++ sym ++ " ").intercalate args)], st)
+      .ok ([line indent ("op " ++ out ++ " = " ++ (" " ++ sym ++ " ").intercalate (powParen n.op args))], st)
     | none =>
       match opsets.lookup n.domain with
       | none => .error .noOpset
@@ -494,7 +554,7 @@ structure FunctionP where
   inputs : List String
   outputs : List String
   attrs : List String
-  /-- iteration order of the Python `set` returned by `_names_used_in_function` (A-py: an input) -/
+  /-- `sorted(_names_used_in_function(f))` (fix da27432 sorts the set; the sorted list is supplied by the harness) -/
   usedOrder : List String
   opsets : List (String × Nat)
   nodes : List Node
@@ -511,20 +571,24 @@ def translateFunction (o : Opts) (d : Nat) (f : FunctionP) (st : St) : R :=
   let (renamed, st) := translateVars o st f.usedOrder
   let st := { st with namesUsed := renamed }
   let funName := cleanup f.name
-  let (ins, st) := translateVars o st f.inputs
+  -- attribute parameters are registered first (fix 9e40403), then the inputs are translated
   let st := { st with attrRen := f.attrs.reverse.map (·, none) ++ st.attrRen,
                       namesUsed := f.attrs.reverse ++ st.namesUsed }
+  let (ins, st) := translateVars o st f.inputs
   let st := { st with remaps := [] :: st.remaps }
   match nodesLoop (translateNode o f.opsets d 1) f.nodes st with
   | .error e => .error e
   | .ok (body, st) =>
     let (rets, st) := translateVars o st f.outputs
     let st := { st with remaps := st.remaps.drop 1 }
-    .ok (["sig " ++ funName ++ "(" ++ comma ins ++ "|" ++ comma f.attrs ++ ")"] ++ body
+    let dflt := defaultOpsetArg o f.opsets
+    let deco := "deco " ++ opsetName f.domain 1 ++ (if dflt == "" then "" else "," ++ dflt)
+    .ok ([deco, "sig " ++ funName ++ "(" ++ comma ins ++ "|" ++ comma f.attrs ++ ")"] ++ body
           ++ [line 1 ("return " ++ comma rets)], st)
 
-/-- `generate_rand`: only FLOAT (1) and INT8 (3) -/
-def randOk (dtype : Nat) : Bool := dtype == 1 || dtype == 3
+/-- `generate_rand` (fix 7dcad6a): FLOAT (1), INT8 (3); FLOAT16 (10), DOUBLE (11); the integer types
+    UINT8 (2), UINT16 (4), INT16 (5), INT32 (6), INT64 (7), UINT32 (12), UINT64 (13) and BOOL (9) -/
+def randOk (dtype : Nat) : Bool := [1, 3, 10, 11, 2, 4, 5, 6, 7, 12, 13, 9].contains dtype
 
 /-- `function_name`, or the cleaned graph name -/
 def ModelP.funName (m : ModelP) : String :=
@@ -532,25 +596,25 @@ def ModelP.funName (m : ModelP) : String :=
   | some f => f
   | none => cleanup m.graphName
 
-/-- body and `return` of `_translate_graph` at a given indentation level.  The main graph gets its own
+/-- body, signature and `return` of `_translate_graph` at a given indentation level.  The main graph gets its own
     remapping scope (pushed before the body, popped after the `return` line) — fix e68372f. -/
 def graphProg (o : Opts) (d : Nat) (m : ModelP) (funName : String) (indent : Nat) (st : St) : R :=
-  -- signature: `_cleanup_variable_name` directly — not the renamer
-  let sig := "sig " ++ funName ++ "(" ++ comma (m.graph.inputs.map cleanup) ++ "|)"
   let st := { st with remaps := [] :: st.remaps }
+  -- the body is translated first; the signature then goes through the exporter's renamer (fix efaa07e)
   match graphBody o (translateNode o m.opsets d indent) m.graph st with
   | .error e => .error e
   | .ok (body, st) =>
+    let (sigNames, st) := translateVars o st m.graph.inputs
+    let sig := "sig " ++ funName ++ "(" ++ comma sigNames ++ "|)"
     let (rets, st) := translateVars o st m.graph.outputs
     let st := { st with remaps := st.remaps.drop 1 }
-    .ok ([sig] ++ body ++ [line indent ("return " ++ comma rets)], st)
+    .ok (["deco " ++ defaultOpsetArg o m.opsets, sig] ++ body ++ [line indent ("return " ++ comma rets)], st)
 
 /-- `_translate_graph` (+ `_substitute_initializers`).  Under `skip_initializers` the function is printed one
     level deeper; when nothing was skipped that extra indentation is removed again (fix 4af3eb7) — the
     indentation influences nothing but the printed depth, so the dedented text is the program at depth 1. -/
 def translateGraph (o : Opts) (d : Nat) (m : ModelP) (st0 : St) : R :=
   if m.functionName.isNone && m.graphName == "" then .error .emptyName
-  else if m.graph.inputs.any (· == "") then .error .emptyName
   else
   let funName := m.funName
   let indent := if o.skipInit then 2 else 1
